@@ -59,6 +59,11 @@ def run_case(case, trace_lines=True):
     sch = case.get('sched', {'mode': 'list', 'choices': []})
     if sch['mode'] == 'list':
         chooser = detsched.chooser_from_list(sch['choices'])
+    elif sch['mode'] == 'prng':
+        import random
+        r = random.Random(sch['seed'])
+        hi = sch.get('spread', 3)
+        chooser = detsched.chooser_from_list([r.randint(0, hi) for _ in range(3000)])
     else:
         chooser = detsched.chooser_preemptions(sch['points'])
     sched = detsched.Scheduler(chooser, trace_files=[pu.__file__] if trace_lines else [])
@@ -317,10 +322,14 @@ def reordered(tr):
 
 @st.composite
 def st_sched(draw, max_len=400):
-    mode = draw(st.sampled_from(['list', 'list', 'points']))
+    mode = draw(st.sampled_from(['list', 'prng', 'prng', 'points']))
+    if mode == 'prng':
+        # a long uniformly random choice sequence from a drawn seed: Hypothesis' own lists are biased towards short /
+        # zero-heavy values (good for shrinking, poor at keeping several threads interleaved for a whole run)
+        return {'mode': 'prng', 'seed': draw(st.integers(0, 2 ** 31)), 'spread': draw(st.sampled_from([1, 3, 3]))}
     if mode == 'list':
         # a choice list: mostly "continue" with occasional switches, or uniformly random
-        dense = draw(st.booleans())
+        dense = draw(st.sampled_from([True, True, False]))
         elems = st.integers(0, 3) if dense else st.sampled_from([0, 0, 0, 0, 0, 1, 2])
         return {'mode': 'list', 'choices': draw(st.lists(elems, min_size=0, max_size=max_len))}
     pts = draw(st.lists(st.tuples(st.integers(0, 250), st.integers(1, 3)), min_size=0, max_size=4))
@@ -350,8 +359,9 @@ def st_case(draw, profile):
         elif keyed:
             case['src'] = 'dict'
     case['yields'] = draw(st.lists(st.integers(0, 3), min_size=n, max_size=n)) if n <= 8 else []
-    if n >= 2 and draw(st.booleans()):
-        case['slow'] = [draw(st.integers(0, n - 1)), draw(st.integers(8, 30))]
+    if n >= 2 and draw(st.integers(0, 3)) > 0:
+        # one slow task (many internal yield points): what makes later tasks finish before earlier ones
+        case['slow'] = [draw(st.integers(0, n - 2)), draw(st.integers(8, 40))]
     if profile == 'fault':
         positions = list(range(n))
         if n:
